@@ -5,6 +5,7 @@ import (
 	"verifharness/mc"
 	_ "verifharness/props/c01"
 	_ "verifharness/props/c05"
+	_ "verifharness/props/c08"
 )
 
 func main() { mc.Main() }
